@@ -336,6 +336,10 @@ def exhaustive_shapes(quick: bool):
 
 
 CORPUS = [
+    # contacts across ONE periodic boundary that form a cycle (two pieces on each side, each low piece facing both high pieces): the last
+    # contact joins a cluster with itself - nothing may be merged (or counted) twice; and a tilted lamella winding (1, 2) round the box
+    {"shape": [5, 7], "periodic": [True, False], "cells": [[0, 0], [0, 2], [0, 3], [0, 4], [0, 6], [1, 0], [1, 6], [2, 0], [2, 1], [2, 2], [2, 3], [2, 4], [2, 5], [2, 6], [4, 0], [4, 1], [4, 2], [4, 4], [4, 5], [4, 6]]},
+    {"shape": [6, 6], "periodic": [True, True], "cells": [[0, 0], [0, 1], [0, 2], [1, 2], [1, 3], [1, 4], [2, 0], [2, 4], [2, 5], [3, 0], [3, 1], [3, 2], [4, 2], [4, 3], [4, 4], [5, 0], [5, 4], [5, 5]]},
     # D1 witness: U-shaped component over the periodic face of axis 1
     {"shape": [5, 8], "periodic": [False, True], "cells": [[1, 0], [3, 0], [1, 7], [2, 7], [3, 7]]},
     {"shape": [5, 8], "periodic": [True, True], "cells": [[1, 0], [3, 0], [1, 7], [2, 7], [3, 7]]},
